@@ -486,7 +486,10 @@ impl RainDbIterator for DatabaseIterator {
     type Error = RainDBError;
 
     fn is_valid(&self) -> bool {
-        self.is_valid
+        // A read error ends the iteration. The children of the merged view that could still be
+        // read would otherwise go on serving entries that the unreadable child shadows (older
+        // values, deleted keys).
+        self.is_valid && self.status().is_none()
     }
 
     fn seek(&mut self, target: &Self::Key) -> Result<(), Self::Error> {
@@ -619,7 +622,7 @@ impl RainDbIterator for DatabaseIterator {
     }
 
     fn current(&self) -> Option<(&Self::Key, &Vec<u8>)> {
-        if !self.is_valid {
+        if !self.is_valid() {
             return None;
         }
 
